@@ -31,6 +31,9 @@ Specials == {
   Obj(<<P(Ka, Lit(NumD(N2), <<OptR, R("enum", ListV(<<EV(NumD(N1)) @@ [note |-> "first"], EV(NumD(N2)) @@ [note |-> "second # not a comment"]>>))>>))>>, <<>>),
   \* a comment between the opening bracket and the first item: it belongs to no item (Ast ignores the field `lead`); item comments exist for enum lists only
   Lit(StrD(Sa), <<R("enum", ListV(<<EV(StrD(Sa)) @@ [note |-> "c1"], EV(StrD(Sb)) @@ [note |-> "c2"]>>) @@ [lead |-> "c0"])>>),
+  \* notes of multi-line annotations holding the characters that end them when paired: * and /
+  Note(Lit(StrD(Sa), <<>>), "**bold** note") @@ [ann |-> "block"], Note(Lit(NumD(N10), <<R("min", NV(N1))>>), "net price * quantity / 2") @@ [ann |-> "block"],
+  Obj(<<P(Ka, Note(Lit(NumD(N1), <<OptR>>), "a * b") @@ [ann |-> "spread"]), P(Kb, Note(One, "x*/ y") )>>, <<>>),
   \* or-alternatives named by a format / "any" next to an example of another kind
   Lit(Null, <<R("or", ListV(<<IdV("date"), IdV("null")>>))>>), Lit(NumD(N1), <<R("or", ListV(<<IdV("email"), IdV("integer"), IdV("any")>>))>>),
   Lit(BoolD(TRUE), <<R("or", ListV(<<IdV("uuid"), IdV("boolean")>>))>>), Lit(NumD(N1_5), <<R("or", ListV(<<IdV("datetime"), IdV("float"), IdV("uri")>>))>>),
